@@ -45,12 +45,17 @@ type actor struct {
 	result string // caller: ok | closed | wfail | other<code>
 	kind   string // caller: echo | hold
 	released bool // hold call whose server handler has been let go: its reply is on the way
+	justReleased bool
 	reread bool   // released from disc.read: a further arrival there is the CAS loop, not parked
 }
 
 type roundRec struct {
 	attempts int
 	ok       bool
+	owner    string // actor that ran the round
+	offered  string // what the plan held when the round began (then the default for ever)
+	def      byte
+	endCmd   int // index of the command during which the round ended
 }
 
 type world struct {
@@ -84,6 +89,9 @@ type world struct {
 	holdCh    chan struct{}
 	holdMu    sync.Mutex
 	over      bool
+	okRounds  int
+	d4        map[string]bool
+	cmdIndex  int
 	accepts   int // server-side PostAccept runs
 	reachable int // dial attempts made while the listener was up (incl. the initial dial)
 	paths     map[string]string
@@ -215,6 +223,7 @@ func (w *world) releaseHeld() {
 	for _, a := range w.actors {
 		if !a.reader && !a.done {
 			a.released = true
+			a.justReleased = true
 		}
 	}
 	w.mu.Unlock()
@@ -275,7 +284,11 @@ func (w *world) statusObs(s erpc.Session, to int32) {
 	w.mu.Lock()
 	if !w.inRound {
 		w.inRound = true
-		w.curRound = roundRec{attempts: 1}
+		owner := "?"
+		if a := w.byGid[curGid()]; a != nil {
+			owner = a.name
+		}
+		w.curRound = roundRec{attempts: 1, owner: owner, offered: string(w.plan), def: w.pdef}
 		w.applyAttempt()
 	}
 	w.mu.Unlock()
@@ -294,10 +307,12 @@ func (w *world) endRound(ok bool) {
 	w.mu.Lock()
 	if w.inRound {
 		w.curRound.ok = ok
+		w.curRound.endCmd = w.cmdIndex
 		w.rounds = append(w.rounds, w.curRound)
 		w.inRound = false
 		if ok {
 			w.connDead = false
+			w.okRounds++
 		}
 	}
 	w.mu.Unlock()
@@ -489,6 +504,7 @@ func (w *world) positions() (pos map[string]string, quiet bool) {
 		w.newReaderLocked(gid)
 	}
 	pos = map[string]string{}
+	w.d4 = map[string]bool{}
 	quiet = true
 	for _, a := range w.actors {
 		var p string
@@ -517,6 +533,9 @@ func (w *world) positions() (pos map[string]string, quiet bool) {
 				p = "read"
 			case blocked:
 				p = "lock"
+				if a.reader && !strings.Contains(gi.text, ".(*session).redialForClient(") {
+					w.d4[a.name] = true // blocked on a callCmd.mu inside D4, not on the session lock
+				}
 			case !a.reader && st == "chan receive" && strings.Contains(gi.text, ".(*session).Call("):
 				p = "await"
 			default:
@@ -527,6 +546,9 @@ func (w *world) positions() (pos map[string]string, quiet bool) {
 			quiet = false
 		}
 		pos[a.name] = p
+	}
+	if w.nread < 1+w.okRounds {
+		quiet = false // the reader goroutine of the newest connection has not shown up yet
 	}
 	if w.inRound {
 		// a round is in progress: its owner must be parked, otherwise it is still running
@@ -545,7 +567,7 @@ func (w *world) positions() (pos map[string]string, quiet bool) {
 
 // settle waits until every actor is parked, blocked, reading, awaiting or done.
 // An echo call awaiting on a connection believed healthy is given time to complete.
-func (w *world) settle(afterCut bool) map[string]string {
+func (w *world) settle(afterCut bool, prev map[string]string) map[string]string {
 	start := time.Now()
 	deadline := time.Now().Add(8 * time.Second)
 	var last string
@@ -568,7 +590,7 @@ func (w *world) settle(afterCut bool) map[string]string {
 			waiting := false
 			w.mu.Lock()
 			for _, a := range w.actors {
-				if !a.reader && (a.kind == "echo" || a.released) && pos[a.name] == "await" {
+				if !a.reader && (a.kind == "echo" || a.released) && pos[a.name] == "await" && (prev[a.name] != "await" || a.justReleased) {
 					waiting = true
 				}
 			}
@@ -593,6 +615,11 @@ func (w *world) settle(afterCut bool) map[string]string {
 		if quiet && key == last {
 			stable++
 			if stable >= 2 {
+				w.mu.Lock()
+				for _, a := range w.actors {
+					a.justReleased = false
+				}
+				w.mu.Unlock()
 				return pos
 			}
 		} else {
